@@ -1,0 +1,10 @@
+//go:build verif
+
+package checkpoints
+
+// Verification hooks (build tag verif): read-only access to the embedded checkpoint table.
+
+// VerifBin returns a copy of the embedded checkpoint data (empty in checkpoint-free configurations).
+func VerifBin() []byte {
+	return append([]byte{}, bin...)
+}
